@@ -1,90 +1,19 @@
-# Per-property configuration of the checks: which harness binaries and fuzz targets decide it,
-# the stated non-triviality rule (copied into the evidence), and the text for MANIFEST.json.
-# MANIFEST.json is generated from this file by ./gen_manifest.py.
+# Per-property configuration of the checks lives in meta/<id>.py (one file per property, each defining META):
+#   harness=[...]      rapidcheck harness binaries (harness/props/<name>.cpp)
+#   fuzz=[{name,...}]  libFuzzer targets (harness/fuzz/<name>.cpp)
+#   rule, technique, level_text, level_note, design_ref, assumptions   -> evidence / MANIFEST.json
+# MANIFEST.json is generated from these files by ./gen_manifest.py.
+import glob, importlib.util, os
 
+HERE = os.path.dirname(os.path.abspath(__file__))
 PROPS = {}
-
-
-def prop(pid, **kw):
-    PROPS[pid] = kw
-
-
-prop('C20',
-     harness=['C20'],
-     rule='Generated: (i) exhaustively, every string of <=4 code points over an 8-symbol alphabet with 1-,2-,3- and 4-byte code points, each '
-          'checked for iteration/size/Substr over every code-point range incl. out-of-bounds/split/trim/IsInteger against reference code on an '
-          'explicit code-point vector; (ii) exhaustively, every pair of ranges with start<=finish and ends in [-1,6]; (iii) rapidcheck: strings '
-          'of <=64 code points over 24 symbols, range pairs in windows +-12 / +-1000 biased to touching/overlapping, Merge over lists. '
-          'Non-trivial: the string contains a multi-byte code point / the pair is not disjoint-and-far / the list has >=3 ranges. '
-          'Distinct = distinct hash of the rendered case.',
-     technique='exhaustive enumeration of short strings and range pairs + rapidcheck random cases against reference definitions',
-     level_text='Bounded-exhaustive plus random exploration against an independent reference: every string of <=4 code points over 1-4 byte '
-                'symbols and every range pair in a window is checked, longer strings and wider windows are sampled. Any deviation of a utility '
-                'from its definition on those inputs is found; inputs beyond the bounds are only sampled.',
-     level_note='Trusted base: the reference definitions in harness/props/C20.cpp (written from the header comments, Allen interval algebra and the '
-                'upstream unit tests). Contains(empty range located exactly at finish) is left unconstrained (undocumented). Only well-formed UTF-8 '
-                'and ranges with start<=finish (the documented precondition) are generated.',
-     design_ref='DESIGN.md section 5, C20',
-     assumptions=['well-formed UTF-8 input (documented requirement of UTF8CharSize)', 'StrRange precondition start<=finish', 'Substr bounds are non-negative'],
-     )
-
-prop('C14',
-     harness=['C14'],
-     rule='Generated: (i) exhaustively every digraph (with self-loops) on <=3 vertices and every loop-free digraph on <=4 vertices, each under every '
-          'vertex insertion order and two edge insertion orders; (ii) exhaustively, on 3 vertices, any graph / erase one vertex / re-insert it with any '
-          'edges; (iii) rapidcheck histories of 1-24 operations AddItem/EraseItem/AddConnection/SetItemInputs/Clear (+UpdatableGraph UpdateFor/'
-          'Invalidate/SetValid) over <=8 uids with every query compared after every operation against an adjacency-set model. Non-trivial: the '
-          'history contains an effective erase or input replacement, or the graph has a cycle (exhaustive part: cycle or >=2 edges). Distinct = hash of the rendered history.',
-     technique='model-based stateful rapidcheck histories + exhaustive small-graph enumeration against an adjacency-set reference graph',
-     level_text='Model-based exploration: every public const query is compared with a naive reference graph after every mutation of generated histories, '
-                'and all graphs up to 4 vertices are enumerated under all insertion orders. Deviations that need a particular DFS/insertion order or a '
-                'tombstoned vertex are reached by construction on small graphs; larger graphs are sampled.',
-     level_note='Trusted base: the reference model in harness/props/C14.cpp (reachability by search, SCC by double reachability). IsReachableFrom(x,x) is '
-                'constrained only where upstream tests pin it (self edge => true, no cycle through x => false). Topological order is only required to '
-                'respect edges when the graph is acyclic, as the property states.',
-     design_ref='DESIGN.md section 5, C14',
-     assumptions=['single-threaded use'],
-     )
+for path in sorted(glob.glob(os.path.join(HERE, 'meta', 'C*.py'))):
+    pid = os.path.splitext(os.path.basename(path))[0]
+    spec = importlib.util.spec_from_file_location('verif_meta_' + pid, path)
+    mod = importlib.util.module_from_spec(spec)
+    spec.loader.exec_module(mod)
+    PROPS[pid] = mod.META
 
 # properties not claimed (reason) - kept current by hand
 NOT_APPLICABLE = {}
 HOOK_COMMITS = ['7d7dca5']
-
-prop('C06',
-     harness=['C06'],
-     rule='Generated: random trees over the whole abstract syntax of RSParserImpl.y (all operators, binders incl. tuple/enumerated declarations, '
-          'declarative/recursive/imperative constructors, filters, calls, function definitions, global declarations; types ignored), rendered by the '
-          'harness printer (own token tables and precedence table) to MATH and ASCII with 0-3 optional parenthesis layers where the grammar admits '
-          'them, random blanks/tabs/newlines; plus exhaustively every (parent, side, child) pair of binary operators in both syntaxes incl. the '
-          'unparenthesised a op1 b op2 c grouping. Oracle: parsed tree == generated tree; every node range == a span recorded by the printer '
-          '(core text or one of the node\'s own parenthesis layers); FindMinimalNode validity. Non-trivial: >=3 operator nodes and (a multi-byte '
-          'token or a redundant parenthesis layer or a newline). Distinct = hash of rendered text.',
-     technique='rapidcheck grammar-based generation with an independent printer/precedence model; parse result compared with the generating tree; exhaustive operator-pair table',
-     level_text='Generated-input exploration with a reference model of the grammar: trees are printed by an independent printer and the parser must '
-                'reconstruct exactly the generating tree and its code-point spans. A changed precedence/associativity line, semantic action or '
-                'position computation shows up as a tree or range mismatch on some generated text.',
-     level_note='Trusted base: the printer and precedence table in harness/model/rsast.hpp (transcribed from the grammar file). Integer literals are drawn '
-                'from [0, INT32_MAX] and indices from small values (overflow of literals is C05/C04 territory). A node range is accepted if it equals the '
-                'node\'s core span or one of its own parenthesis layers (the property says "exactly the text of its own subtree").',
-     design_ref='DESIGN.md section 5, C06',
-     assumptions=['only grammatical input (rejection of ungrammatical input is C04)'],
-     )
-
-prop('C05',
-     harness=['C05'],
-     rule='Generated: random grammatical trees over the whole abstract syntax (types ignored), Greek local names, rendered to MATH or ASCII by the '
-          'harness printer; exhaustively every operator as parent of every operator as left/right/both child (set/arithmetic, logical, and '
-          'negation/quantifier parents) in both source syntaxes. Oracle: Parse -> Generator::FromTree(MATH|ASCII) -> Parse gives a tree equal under '
-          'SyntaxTree::operator== and equal to the generating tree (ASCII: local names through my copy of the transliteration table); printing the '
-          're-parsed tree is a fixpoint; ConvertTo there-and-back preserves the tree when local names stay distinct; conversion is idempotent. '
-          'Non-trivial: an operator node with an operator child (bracket placement matters) or a constructor. Distinct = hash of rendered text. '
-          'Integer literals are drawn from [0, INT32_MAX] (see known findings).',
-     technique='rapidcheck grammar-based generation + print/parse round-trip oracle in both syntaxes + exhaustive operator-pair table',
-     level_text='Round-trip exploration over generated trees: every (parent, child, side) operator pair is covered exhaustively, deeper nestings and all '
-                'constructors by random generation. A missing bracket, a wrong token spelling in either syntax or an unstable printer shows up as a '
-                're-parse failure or a different tree.',
-     level_note='Trusted base: harness printer/precedence model (rsast.hpp) used to create the source text and the expected tree. Direct double '
-                'application of ConvertTo is only checked when the text has no "*" (MATH multiply vs ASCII product: the one token whose meaning differs).',
-     design_ref='DESIGN.md section 5, C05',
-     assumptions=['integer literals within int32, indices within int16'],
-     )
